@@ -166,6 +166,8 @@ def solve_one(job):
     t = time.time()
     if trivial:
         return dict(idx=idx, verdict="unsat", backend="simplifier", stage="syntactic", time_s=0.0, model=None, reason="")
+    if len(job) > 9 and job[9] and time.time() > job[9]:
+        return dict(idx=idx, verdict="unknown", backend="-", stage="not-attempted", time_s=0.0, model=None, reason="the solving budget of this check was used up before this obligation was reached")
     verdict, model, reason, stage = "unknown", None, "", ""
     backend_override, early_cvc5 = None, None
     stages = []
